@@ -507,6 +507,50 @@ def run_overlap2d(rec, seed):
 
 
 # ------------------------------------------------------------------ rejections
+# ------------------------------------------------------------------ halos wider than the axis
+def run_wide_halo(rec, seed):
+    """the function receives exactly the declared widths, also when a width exceeds the length of the (periodic, filled
+    or extended) axis: 1-3 cells, widths up to 2n + 1 on either side, definition-time and call-time routes"""
+    from xgcm import Grid
+    from xgcm.grid_ufunc import apply_as_grid_ufunc, as_grid_ufunc
+
+    for n in (1, 2, 3):
+        ds = S.make_ds({"X": ("center", "left")}, {"X": n}, extra={"t": 2})
+        with warnings.catch_warnings():
+            warnings.simplefilter("ignore")
+            g = Grid(ds, coords=S.grid_coords({"X": ("center", "left")}), periodic=True, autoparse_metadata=False)
+        vals = ((np.arange(2 * n) * 5 + seed) % 7).astype(float).reshape(2, n) + 1
+        da = xr.DataArray(vals, dims=["t", S.dimname("X", "center")])
+        for lo, hi in ((n + 1, 0), (0, 2 * n + 1), (n + 2, n + 1), (n, n)):
+            for rule, fv in (("periodic", None), ("fill", 4.0), ("extend", None)):
+                for route in ("call", "decorator"):
+                    case = dict(kind="wide-halo", n=n, width=[lo, hi], rule=rule, route=route)
+                    got = []
+
+                    def f(a):
+                        got.append(np.array(a))
+                        return a[..., lo: lo + n]
+
+                    kw = dict(boundary=rule) if fv is None else dict(boundary=rule, fill_value=fv)
+                    rec.case(("wide", n, lo, hi, rule, route), True, sample=case)
+                    try:
+                        with warnings.catch_warnings():
+                            warnings.simplefilter("ignore")
+                            if route == "call":
+                                r = apply_as_grid_ufunc(f, da, axis=[("X",)], grid=g, signature="(X:center)->(X:center)", boundary_width={"X": (lo, hi)}, **kw)
+                            else:
+                                r = as_grid_ufunc(signature="(X:center)->(X:center)", boundary_width={"X": (lo, hi)}, **kw)(f)(g, da, axis=[("X",)])
+                    except Exception as e:
+                        rec.violation("wide-halo", "raise:" + exc_sig(e), case, "array", f"{type(e).__name__}: {e}"[:200])
+                        continue
+                    exp = S.ref_pad(vals, 1, lo, hi, rule, 0.0 if fv is None else fv)
+                    if not got or got[0].shape != exp.shape or not np.array_equal(got[0], exp):
+                        rec.violation("wide-halo", "function-received-other-than-the-declared-halo", case, exp, got[0] if got else None)
+                        continue
+                    if not np.array_equal(r.values, vals):
+                        rec.violation("wide-halo", "result", case, vals, r.values)
+
+
 def run_rejections(rec, seed):
     from xgcm.grid_ufunc import apply_as_grid_ufunc
 
@@ -555,7 +599,7 @@ def run_rejections(rec, seed):
 def shards(tier, seed):
     n = len(signatures())
     sh = [("sigs", lo, min(lo + 150, n)) for lo in range(0, n, 150)]
-    sh += [("options",), ("rejections",), ("overlap2d",)]
+    sh += [("options",), ("rejections",), ("overlap2d",), ("wide-halo",)]
     return sh
 
 
@@ -571,6 +615,8 @@ def run_shard(shard, tier, seed, rec):
             run_option(rec, c, seed)
     elif shard[0] == "overlap2d":
         run_overlap2d(rec, seed)
+    elif shard[0] == "wide-halo":
+        run_wide_halo(rec, seed)
     else:
         run_rejections(rec, seed)
 
@@ -584,6 +630,10 @@ def replay_case(case, seed, rec):
     elif k == "overlap2d":
         rec.MAXVIOL = 10 ** 6
         run_overlap2d(rec, seed)
+        rec.viol = [v for v in rec.viol if v["case"] == case]
+    elif k == "wide-halo":
+        rec.MAXVIOL = 10 ** 6
+        run_wide_halo(rec, seed)
         rec.viol = [v for v in rec.viol if v["case"] == case]
     else:
         run_rejections(rec, seed)
